@@ -3,7 +3,7 @@
 # applies the patch to /repo, runs the check, restores /repo.  Prints the tail of the check output and its exit code.
 P=$1; ID=$2; shift 2
 cd /repo && git apply "$P" || { echo "patch does not apply"; exit 9; }
-cd /verif && bin/check $ID --no-evidence "$@" > /tmp/try_mut_$ID.log 2>&1; rc=$?
+cd /verif && bin/check $ID --no-evidence "$@" > /var/tmp/try_mut_$ID.log 2>&1; rc=$?
 git -C /repo checkout -- . 
-grep -E "VIOLATION|INCONCLUSIVE|failed:|tier=" /tmp/try_mut_$ID.log | cut -c1-220 | head -14
+grep -E "VIOLATION|INCONCLUSIVE|failed:|tier=" /var/tmp/try_mut_$ID.log | cut -c1-220 | head -14
 echo "exit=$rc"
